@@ -745,3 +745,132 @@ func (c *Ctx) opcodeType() *types.Named {
 	}
 	return c.engType("opcode")
 }
+
+// ---------------------------------------------------------------------------
+// R-ZERO-VM (C05; added with fixes F47/F48): "the zero value for VM is a valid VM" (engine/vm.go), and the
+// sandboxing example builds its interpreter that way.  Its nilable fields - FS (an interface), input and
+// output (*Stream), Unknown (a func) - are nil then.  Wherever the value loaded from such a field is USED in a
+// way that needs it non-nil, the branch facts say it is non-nil:
+//   - an interface field: as the receiver of a method call or as an argument of a non-library function;
+//   - a pointer field: converted to an interface (a nil *Stream that becomes a term panics in whichever
+//     built-in uses it next, and the recovered panic comes back as the error "panic: ..."), dereferenced, or
+//     used as a receiver;
+//   - a func field: called.
+// Comparisons with nil and plain stores are not uses.
+func ruleZeroVM(c *Ctx, r *Report) {
+	const rule = "R-ZERO-VM"
+	desc := "a nilable field of VM is used only where it is known non-nil (the zero VM is a valid VM)"
+	vmT := c.engType("VM")
+	if vmT == nil {
+		r.undecided(rule, "anchor:VM", "-", "locate engine.VM", "not found")
+		return
+	}
+	st := vmT.Underlying().(*types.Struct)
+	nilable := map[int]string{}
+	for i := 0; i < st.NumFields(); i++ {
+		switch st.Field(i).Type().Underlying().(type) {
+		case *types.Interface, *types.Pointer, *types.Signature:
+			nilable[i] = st.Field(i).Name()
+		}
+	}
+	n := 0
+	for _, fn := range c.LibFuncs() {
+		seen := map[string]int{}
+		eachInstr(fn, func(in ssa.Instruction) {
+			ld, ok := in.(*ssa.UnOp)
+			if !ok || ld.Op != token.MUL {
+				return
+			}
+			fa, ok := ld.X.(*ssa.FieldAddr)
+			if !ok || !isEngNamed(deref(fa.X.Type()), "VM") || nilable[fa.Field] == "" || ld.Referrers() == nil {
+				return
+			}
+			field := nilable[fa.Field]
+			for _, ref := range *ld.Referrers() {
+				use := ""
+				switch u := ref.(type) {
+				case *ssa.MakeInterface:
+					use = "is converted to " + types.TypeString(u.Type(), func(p *types.Package) string { return p.Name() })
+				case *ssa.FieldAddr, *ssa.Field:
+					use = "is dereferenced"
+				case *ssa.UnOp:
+					if u.Op == token.MUL {
+						use = "is dereferenced"
+					}
+				case ssa.CallInstruction:
+					cc := u.Common()
+					switch {
+					case cc.IsInvoke() && cc.Value == ssa.Value(ld):
+						use = "is the receiver of " + cc.Method.Name()
+					case !cc.IsInvoke() && cc.Value == ssa.Value(ld):
+						use = "is called"
+					default:
+						callee := cc.StaticCallee()
+						for i, a := range cc.Args {
+							if a != ssa.Value(ld) {
+								continue
+							}
+							if callee == nil || !c.isLibPkg(funcPkg(callee)) {
+								use = "is passed to " + calleeName(cc)
+							} else if i == 0 && callee.Signature.Recv() != nil {
+								use = "is the receiver of " + callee.Name()
+							}
+						}
+					}
+				}
+				if use == "" {
+					continue
+				}
+				n++
+				base := fmt.Sprintf("%s/VM.%s", fname(fn), field)
+				seen[base]++
+				key := fmt.Sprintf("%s#%d", base, seen[base])
+				nonNil := false
+				at := ref.Block()
+				for f := range c.factsAt(at) {
+					x, op, ok := nilCmp(f.cond)
+					if !ok || (op == token.NEQ) != f.pol {
+						continue
+					}
+					if l2, ok := x.(*ssa.UnOp); ok && l2.Op == token.MUL {
+						if fa2, ok := l2.X.(*ssa.FieldAddr); ok && fa2.Field == fa.Field && isEngNamed(deref(fa2.X.Type()), "VM") && c.sameVar(fa2.X, fa.X) {
+							nonNil = true
+						}
+					}
+				}
+				// a store of a non-nil value to the same field earlier in the function (lazy default) also settles it
+				if !nonNil {
+					eachInstr(fn, func(x ssa.Instruction) {
+						st, ok := x.(*ssa.Store)
+						if !ok {
+							return
+						}
+						fa2, ok := st.Addr.(*ssa.FieldAddr)
+						if !ok || fa2.Field != fa.Field || !isEngNamed(deref(fa2.X.Type()), "VM") {
+							return
+						}
+						if _, isClosure := st.Val.(*ssa.MakeClosure); !isClosure {
+							if _, isFn := st.Val.(*ssa.Function); !isFn {
+								return
+							}
+						}
+						// the store must lie on every path that reaches the use with the field still nil: it is the
+						// then-branch of `if field == nil`, so the join after it dominates the use
+						sb := st.Block()
+						if len(sb.Succs) == 1 && (sb.Succs[0] == at || sb.Succs[0].Dominates(at)) {
+							nonNil = true
+						}
+					})
+				}
+				if nonNil {
+					r.ok(rule, key, c.at(ref), desc, "VM."+field+" "+use+" where it is known non-nil", true)
+				} else {
+					r.bad(rule, key, c.at(ref), desc, "VM."+field+" "+use+" although it may be nil (zero-value VM): a nil dereference, recovered at best into an error that says \"panic: ...\"")
+				}
+			}
+		})
+	}
+	if n == 0 {
+		r.undecided(rule, "scan/uses", "-", desc, "no use of a nilable VM field found")
+	}
+}
